@@ -25,6 +25,16 @@ def outcome(spec):
 
 def main():
     req = json.loads(sys.stdin.read())
+    if req.get("run"):
+        # run one request in SYNC mode (the parent kills this process if it spins)
+        spec = req["specs"][0]
+        sess = S.prepare_link(spec) if "sources" in spec else S.prepare(spec, S.build_classes(spec))
+        try:
+            sess.run()
+            print(json.dumps("returned"), flush=True)
+        except BaseException:
+            print(json.dumps("raised"), flush=True)
+        os._exit(0)
     out = []
     for spec in req["specs"]:
         res = []
